@@ -269,7 +269,44 @@ def kwargs_order_case(_=None):
   return n, n, viols, [dict(scenario='order of **kwargs arguments', cases=n)]
 
 
+def posonly_name_in_kwargs_case(_=None):
+  """A keyword argument whose name is also the name of a positional-only parameter is legal in
+  Python when the callable has **kwargs (`f(1, a=2)` for `def f(a, /, **kwargs)`): a configuration
+  that accepts it must pass it on; refusing it at construction is fine."""
+  viols = []
+  def f1(a, /, **kwargs):
+    return ('f1', a, tuple(sorted(kwargs.items())))
+  def f2(a=0, b=1, /, c=2, **kw):
+    return ('f2', a, b, c, tuple(sorted(kw.items())))
+  n = 0
+  for name, fn, args, kwargs in [('one positional-only', f1, (1,), {'a': 2}),
+                                 ('two positional-only, one collides', f2, (5,), {'b': 7, 'z': 8}),
+                                 ('positional-only left at its default', f2, (), {'a': 9, 'c': 3})]:
+    for cls in (fdl.Config, fdl.Partial):
+      n += 1
+      want = fn(*args, **kwargs)
+      try:
+        cfg = cls(fn, *args, **kwargs)
+      except TypeError:
+        continue                      # refused loudly
+      try:
+        got = fdl.build(cfg)
+        got = got() if cls is fdl.Partial else got
+      except Exception as e:   # pylint: disable=broad-except
+        got = ('raises', type(e).__name__)
+      if got != want:
+        viols.append(dict(kinds=[], hasdef=[], store=name, cls=cls.__name__, sig='posonly-name-in-kwargs',
+                          scenario=f'{name}/{cls.__name__}', fkey='posonly-name-in-kwargs',
+                          what=f'{cls.__name__}({fn.__name__}, *{args}, **{kwargs}) is accepted, stores '
+                               f'{dict(cfg.__arguments__)}, but builds {got}; the direct call gives {want}'))
+  return n, n, viols, [dict(scenario='keyword argument named like a positional-only parameter', cases=n)]
+
+
 def replay(case):
+  if case.get('sig') == 'posonly-name-in-kwargs':
+    r = posonly_name_in_kwargs_case()
+    m = [v for v in r[2] if v['scenario'] == case.get('scenario')]
+    return m[0]['what'] if m else None
   if case.get('sig') == 'kwargs-order':
     r = kwargs_order_case()
     m = [v for v in r[2] if v['scenario'] == case.get('scenario')]
